@@ -130,11 +130,11 @@ Print Assumptions C08_generated_key_history_attributes.
 (* C_UnwrapKey regenerated whole (gen/Gen_Keys.v): an unwrapped key is stored with CKA_LOCAL, CKA_ALWAYS_SENSITIVE and
    CKA_NEVER_EXTRACTABLE false, and a successful call has written them *)
 Theorem C08_unwrapped_key_history_attributes : forall (e : C_UnwrapKey.env),
-  (forall v, In (CKA_VALUE, v) (snd (C_UnwrapKey.app e)) -> C_UnwrapKey.hv1_isPrivate e <> 0 -> exists x, v = C_UnwrapKey.token_encrypt_out_value e x) /\
+  (forall v, In (CKA_VALUE, v) (snd (C_UnwrapKey.app e)) -> C_UnwrapKey.extractObjectInformation_gives_isPrivate e <> 0 -> exists x, v = C_UnwrapKey.token_encrypt_out_value e x) /\
   (forall v, In (CKA_LOCAL, v) (snd (C_UnwrapKey.app e)) -> v = 0) /\
   (forall v, In (CKA_ALWAYS_SENSITIVE, v) (snd (C_UnwrapKey.app e)) -> v = 0) /\
   (forall v, In (CKA_NEVER_EXTRACTABLE, v) (snd (C_UnwrapKey.app e)) -> v = 0) /\
-  (fst (C_UnwrapKey.app e) = 0 -> (C_UnwrapKey.hv1_objClass e = CKO_SECRET_KEY -> exists v, In (CKA_VALUE, v) (snd (C_UnwrapKey.app e))) /\
+  (fst (C_UnwrapKey.app e) = 0 -> (C_UnwrapKey.extractObjectInformation_gives_objClass e = CKO_SECRET_KEY -> exists v, In (CKA_VALUE, v) (snd (C_UnwrapKey.app e))) /\
      (exists v, In (CKA_LOCAL, v) (snd (C_UnwrapKey.app e))) /\ (exists v, In (CKA_ALWAYS_SENSITIVE, v) (snd (C_UnwrapKey.app e))) /\
      (exists v, In (CKA_NEVER_EXTRACTABLE, v) (snd (C_UnwrapKey.app e)))).
 Proof. exact unwrapped_key_attributes. Qed.
